@@ -853,6 +853,35 @@ impl<'a> Pretty<'a, Allocator> for &Node<'_> {
                 docs![allocator, allocator.line(), *else_branch].nest(2)
             ]
             .group(),
+            // The eta-expansion of the curried record access operator `(.)` is the only way a
+            // dynamic access whose field isn't an interpolated string can arise, and it has no
+            // other concrete syntax: `fun x y => x."%{y}"` is a different (and differently
+            // behaved, for non-string fields) expression.
+            Node::Fun {
+                args: [fst, snd],
+                body,
+            } if matches!(
+                (&fst.data, &snd.data, fst.alias, snd.alias, &body.node),
+                (
+                    PatternData::Any(x),
+                    PatternData::Any(y),
+                    None,
+                    None,
+                    Node::PrimOpApp {
+                        op: PrimOp::RecordGet,
+                        args: [
+                            Ast { node: Node::Var(field), .. },
+                            Ast { node: Node::Var(record), .. }
+                        ]
+                    }
+                ) if x.label() == "x"
+                    && y.label() == "y"
+                    && field.ident() == y.ident()
+                    && record.ident() == x.ident()
+            ) =>
+            {
+                allocator.text("(.)")
+            }
             Node::Fun { args, body } => docs![
                 allocator,
                 "fun",
@@ -977,7 +1006,15 @@ impl<'a> Pretty<'a, Allocator> for &Node<'_> {
             Node::PrimOpApp {
                 op: PrimOp::RecordGet,
                 args: [field, record],
-            } => docs![allocator, record, ".", field],
+            } => match &field.node {
+                // `record."%{field}"`: the record must be an atom, as for static accesses.
+                Node::StringChunks(_) => docs![allocator, allocator.atom(record), ".", field],
+                // There is no surface syntax for a dynamic access whose field isn't an
+                // interpolated string (this only arises from the curried operator `(.)`, see
+                // `Node::Fun` above): print the corresponding interpolation rather than what
+                // would be read back as a static access.
+                _ => docs![allocator, allocator.atom(record), ".\"%{", field, "}\""],
+            },
             Node::PrimOpApp {
                 op: PrimOp::Sub,
                 args: [left, right],
